@@ -10,7 +10,7 @@ import sys
 
 VERIF = os.path.dirname(os.path.dirname(os.path.abspath(__file__)))
 REPO = '/repo'
-ALSO = {'D14': ['C20'], 'D17': ['C02'], 'D22': ['C20'], 'D19': ['C01']}
+ALSO = {'D14': ['C20'], 'D17': ['C02']}
 # when a later fix touched the same lines, the reverse patch is limited to these files
 LIMIT = {'87185ac': ['kapture/io/csv.py']}
 
